@@ -61,7 +61,16 @@ pub fn run(args: &Args) {
             match kind {
                 "sheet" => {
                     let p = book.get_sheet_mut(&0).unwrap().get_sheet_protection_mut();
-                    p.set_sheet(true);
+                    // the password record is kept whatever the "sheet" flag says (true, false, or never set)
+                    match k % 4 {
+                        0 => {}
+                        1 => {
+                            p.set_sheet(false);
+                        }
+                        _ => {
+                            p.set_sheet(true);
+                        }
+                    }
                     if legacy_first {
                         p.set_password_raw("CBEB");
                     }
